@@ -292,15 +292,17 @@ func (c *Ctx) report(t *testing.T, kind string, f *Failure, cs any, seed uint64)
 
 // firstRepoFrame extracts "pkg.Func" of the innermost compose-go frame of a stack.
 func firstRepoFrame(stack string) string {
-	re := regexp.MustCompile(`github\.com/compose-spec/compose-go/v2/([A-Za-z0-9_/]+)\.([A-Za-z0-9_.()*]+)`)
+	re := regexp.MustCompile(`github\.com/compose-spec/compose-go/v2/([A-Za-z0-9_/]+)\.((?:\(\*?[A-Za-z0-9_]+(?:\[[^\]]*\])?\)\.)?[A-Za-z0-9_]+)`)
 	m := re.FindStringSubmatch(stack)
 	if m == nil {
 		return "harness"
 	}
 	fn := m[2]
-	fn = strings.TrimSuffix(fn, "(...)")
-	if i := strings.Index(fn, ".func"); i > 0 {
-		fn = fn[:i]
+	if i := strings.Index(fn, "["); i > 0 {
+		// generic receiver: drop the type arguments
+		if j := strings.Index(fn, "]"); j > i {
+			fn = fn[:i] + fn[j+1:]
+		}
 	}
 	return m[1] + "." + fn
 }
